@@ -101,6 +101,60 @@ fn expr_contexts(c: &GE, l: &[String; 3]) -> Vec<GE> {
     ]
 }
 
+/// contexts in which it matters whether the stack is put back when `c` FAILS: `c` as the whole operand of `?`, `*`, of either
+/// alternative of `|` (where the optimizer asks for restore_on_err) and of a predicate, below 1 - 3 unequal stack entries, followed by
+/// a literal and by stack readers that notice a missing / extra entry (pops of every entry, the whole stack, slices)
+fn restore_contexts(c: &GE, l: &[String; 3]) -> Vec<GE> {
+    let (a, b, d) = (l[0].as_str(), l[1].as_str(), l[2].as_str());
+    let pushes = |k: usize| -> Vec<GE> { [a, b, d, a].iter().take(k).map(|x| push(s(x))).collect() };
+    let after = |k: usize, tail: Vec<GE>| -> GE { let mut v = pushes(k); v.extend(tail); seq(v) };
+    let c = || c.clone();
+    vec![
+        after(2, vec![GE::Opt(bx(c())), s(d), id("POP"), id("POP"), id("EOI")]),
+        after(2, vec![cho(c(), s(d)), id("PEEK_ALL")]),
+        after(2, vec![cho(s(d), c()), GE::Opt(bx(s(d))), id("POP"), id("POP")]),
+        after(2, vec![GE::Rep(bx(c())), s(d), id("POP_ALL"), id("EOI")]),
+        after(1, vec![GE::Opt(bx(c())), GE::Opt(bx(s(d))), id("POP")]),
+        after(3, vec![GE::Opt(bx(c())), GE::Slice(0, None)]),
+        after(2, vec![GE::Opt(bx(c())), GE::Opt(bx(c())), s(d), id("PEEK"), id("DROP"), id("PEEK")]),
+        after(2, vec![GE::Neg(bx(c())), s(d), id("POP"), id("POP")]),
+        after(3, vec![GE::Rep1(bx(cho(c(), s(d)))), GE::Slice(-2, None)]),
+    ]
+}
+
+fn is_leaf(e: &GE) -> bool { matches!(e, GE::Str(_) | GE::Ins(_) | GE::Range(_, _) | GE::Id(_) | GE::Slice(_, _) | GE::PushLit(_)) }
+fn count_leaves(e: &GE) -> usize { let mut n = 0; walk(e, &mut |x| if is_leaf(x) { n += 1; }); n }
+fn replace_leaf(e: &GE, at: usize, with: &GE, k: &mut usize) -> GE {
+    use GE::*;
+    if is_leaf(e) { let me = *k; *k += 1; return if me == at { with.clone() } else { e.clone() }; }
+    let mut b = |x: &GE, k: &mut usize| Box::new(replace_leaf(x, at, with, k));
+    match e {
+        Pos(x) => Pos(b(x, k)), Neg(x) => Neg(b(x, k)), Opt(x) => Opt(b(x, k)), Rep(x) => Rep(b(x, k)), Rep1(x) => Rep1(b(x, k)), Push(x) => Push(b(x, k)), Roe(x) => Roe(b(x, k)),
+        Seq(l, r) => { let l = b(l, k); Seq(l, b(r, k)) } Cho(l, r) => { let l = b(l, k); Cho(l, b(r, k)) }
+        RepX(x, n) => RepX(b(x, k), *n), RepMin(x, n) => RepMin(b(x, k), *n), RepMax(x, n) => RepMax(b(x, k), *n), RepMM(x, m, n) => RepMM(b(x, k), *m, *n),
+        Tag(t, x) => Tag(t.clone(), b(x, k)), x => x.clone(),
+    }
+}
+
+/// variants of the construct in which one of its leaves is an operation that changes the stack BEFORE it can fail (a pop compares
+/// after it has taken the entry; directly and behind a rule call) or only when it succeeds (DROP, PEEK as the neighbours): the
+/// construct itself often only carries literals, with which no failure ever leaves a trace on the stack
+fn stack_mutants(c: &GE) -> Vec<(Vec<GRule>, GE)> {
+    let hp = GRule { name: "aroundh_pop".into(), ty: Ty::Normal, e: id("POP") };
+    let hq = GRule { name: "aroundh_popall".into(), ty: Ty::Silent, e: id("POP_ALL") };
+    let subs: Vec<(Vec<GRule>, GE)> = vec![(vec![], id("POP")), (vec![hp.clone()], id("aroundh_pop")), (vec![], id("POP_ALL")), (vec![hq.clone()], id("aroundh_popall")),
+        (vec![], id("DROP")), (vec![], id("PEEK"))];
+    let n = count_leaves(c).min(2);
+    let mut out: Vec<(Vec<GRule>, GE)> = vec![];
+    for at in 0..n {
+        for (h, with) in &subs {
+            let m = replace_leaf(c, at, with, &mut 0);
+            if m != *c && !out.iter().any(|(_, x)| *x == m) { out.push((h.clone(), m)); }
+        }
+    }
+    out
+}
+
 /// contexts that exercise the implicit skip between the parts of sequences and repetitions
 fn skip_contexts(l: &[String; 3]) -> Vec<GE> {
     let (a, b, d) = (l[0].as_str(), l[1].as_str(), l[2].as_str());
@@ -186,7 +240,13 @@ pub fn around(spec: &Spec, extras: bool, out: &mut Vec<String>, max_grammars: us
                 cands.push((vec![GRule { name: h.clone(), ty: Ty::NonAtomic, e }], seq(vec![s(&l[2]), id(&h)]), Ty::Atomic));
             }
         } else if let Some(c) = &culprit {
-            let ctx = expr_contexts(c, &l);
+            let mut ctx = expr_contexts(c, &l);
+            let main = ctx.len().min(11);
+            // the construct as found in the contexts in which a failure must leave the stack alone, then its variants whose leaves
+            // change the stack before failing, in the same contexts
+            let rctx = restore_contexts(c, &l);
+            ctx.splice(main..main, rctx.into_iter());
+            let mutants = if spec.kind == "expr" { stack_mutants(c) } else { vec![] };
             // in the second base (added WHITESPACE) only the rules in which the skip can run
             for (ti, t) in tys.iter().enumerate() {
                 if bi > 0 && matches!(t, Ty::Atomic | Ty::Compound) { continue; }
@@ -194,6 +254,14 @@ pub fn around(spec: &Spec, extras: bool, out: &mut Vec<String>, max_grammars: us
                 for (k, e) in ctx.iter().enumerate() {
                     if ti >= 2 && k > 10 { continue; }          // the modifiers further from the one found: the main contexts only
                     cands.push((vec![], e.clone(), *t));
+                }
+                if ti < 2 && bi == 0 {
+                    for (h, m) in &mutants {
+                        for (k, e) in restore_contexts(m, &l).into_iter().enumerate() {
+                            if ti == 1 && k > 4 { continue; }
+                            cands.push((h.clone(), e, *t));
+                        }
+                    }
                 }
             }
             // the construct behind a rule call: helper of the modifier found, silent / normal, called from atomic and non-atomic rules
